@@ -4,12 +4,15 @@ package shmipc
 
 import (
 	"fmt"
+	"sort"
 	"testing"
 	"io"
 	"net"
 	"os"
 	"strconv"
 	"unsafe"
+
+	syscall2 "syscall"
 
 	syscall "golang.org/x/sys/unix"
 
@@ -111,6 +114,8 @@ type ePair struct {
 	hogged     []*bufferSlice
 	baseFds    map[int]bool
 	bm         *bufferManager
+	tables     map[int]*globalBufferManager
+	tableOf    func(proc int) *globalBufferManager
 }
 
 var pairSeq int
@@ -177,6 +182,18 @@ func socketPairConns() (net.Conn, net.Conn) {
 	return mk(fds[0]), mk(fds[1])
 }
 
+// noteConnOwner attributes a connection's descriptor to a process.
+func noteConnOwner(c net.Conn, proc int) {
+	type sc interface {
+		SyscallConn() (syscall2.RawConn, error)
+	}
+	if s, ok := c.(sc); ok {
+		if rc, err := s.SyscallConn(); err == nil {
+			rc.Control(func(fd uintptr) { vrt.NoteFdOwner(int(fd), proc) })
+		}
+	}
+}
+
 // pairBegin prepares the process-global state of an execution (called first thing by every E-pair scenario).
 var netpollWarm bool
 
@@ -207,8 +224,36 @@ func pairBegin() *ePair {
 	bufferSlicePool.Reset()
 	defaultDispatcher = p.router
 	vrt.ShmPoints(false)
+	// every "process" has its own table of mapped buffer managers, as real processes do: the server really maps the
+	// buffer memory a second time instead of sharing the client's Go object
+	p.tables = map[int]*globalBufferManager{}
+	p.tableOf = func(proc int) *globalBufferManager {
+		t := p.tables[proc]
+		if t == nil {
+			t = &globalBufferManager{bms: make(map[string]*bufferManager, 8)}
+			p.tables[proc] = t
+		}
+		return t
+	}
+	bufferManagers = p.tableOf(0)
+	vrt.SwitchHook = func(proc int) { bufferManagers = p.tableOf(proc) }
 	vrt.OnCleanup(p.cleanup)
 	return p
+}
+
+// tablesEmpty reports the buffer-manager table entries of all processes except the listed ones.
+func (p *ePair) tableEntries(except int) []string {
+	var out []string
+	for proc, t := range p.tables {
+		if proc == except {
+			continue
+		}
+		for k, bm := range t.bms {
+			out = append(out, fmt.Sprintf("process %d still maps %s (refcount %d)", proc, k, bm.refCount))
+		}
+	}
+	sort.Strings(out)
+	return out
 }
 
 // newEPair builds an established pair; the handshake runs in the quiet (non-branching) setup phase.
@@ -216,6 +261,8 @@ func newEPair(o pairOpts) *ePair {
 	p := pairBegin()
 	vrt.Quiet(true)
 	ca, cb := socketPairConns()
+	noteConnOwner(ca, 1)
+	noteConnOwner(cb, 2)
 	cfgC, cfgS := pairConfig(o, p.name), pairConfig(o, p.name)
 	cfgS.listenCallback = o.ListenCB
 	tc := vrt.GoProc("client-init", 1, func() { p.c, p.cerr = newSession(cfgC, ca, true) })
@@ -284,17 +331,19 @@ func (p *ePair) cleanup() {
 			syscall.Munmap(qm.mem)
 		}
 	}
-	bufferManagers.Lock()
-	for k, bm := range bufferManagers.bms {
-		if len(bm.mem) > 0 && !vrt.WasUnmapped(bm.mem) {
-			syscall.Munmap(bm.mem)
+	vrt.SwitchHook = nil
+	for _, t := range p.tables {
+		for k, bm := range t.bms {
+			if len(bm.mem) > 0 && !vrt.WasUnmapped(bm.mem) {
+				syscall.Munmap(bm.mem)
+			}
+			if bm.mmapMapType == MemMapTypeDevShmFile {
+				os.Remove(bm.path)
+			}
+			delete(t.bms, k)
 		}
-		if bm.mmapMapType == MemMapTypeDevShmFile {
-			os.Remove(bm.path)
-		}
-		delete(bufferManagers.bms, k)
 	}
-	bufferManagers.Unlock()
+	bufferManagers = &globalBufferManager{bms: make(map[string]*bufferManager, 8)}
 	os.Remove("/dev/shm/" + p.name + "_queue")
 	os.Remove("/dev/shm/" + p.name + bufferPathSuffix)
 	for fd := range listFds() {
@@ -332,6 +381,8 @@ func runBScenarios(t *testing.T, prop string, scs []bScenario) {
 		w.explore(name, map[string]interface{}{"scenario": sc.Name, "bound": b}, opts, sc.Body)
 	}
 }
+
+const ms = vrt.Millisecond
 
 // ---- small helpers for scenarios -----------------------------------------------------------------------
 
